@@ -75,6 +75,8 @@ PROPS = {
             dict(key=ADV + '::general_v_parallel_advection_eval_step', gen='vpar_general', n=(300, 5000)),
             dict(key=ADV + '::v_parallel_advection_eval_step', gen='vpar_dispatch', n=(300, 5000)),
         ],
+        bounded=[dict(module='vf.rt.bounded_adv', prop='C11',
+                      bound='VParallelAdvection.step in the three edge modes against an independent interpolant (shifts 0 .. 5.2 domain widths), consecutive steps; gridStep / gridStepKeepGradient on process grids up to 3x2')],
         assumptions=['S1 names the value returned by the spline evaluator passed in (general or uniform-cubic); that it is the '
                      'B-spline value is C07; its precondition on (knots, degree, coeffs) is the class invariant of BSplines/Spline1D '
                      '(spl1_ok), established by the Python-level callers',
@@ -88,6 +90,8 @@ PROPS = {
             dict(key=ADV + '::general_get_lagrange_vals', gen='lagr_general', n=(200, 3000)),
             dict(key=ADV + '::get_lagrange_vals', gen='lagr_dispatch', n=(200, 3000)),
         ],
+        bounded=[dict(module='vf.rt.bounded_adv', prop='C10',
+                      bound='FluxSurfaceAdvection.step / _getLagrangePts / gridStep against the defining formula (degree-5 Lagrange weights, stencil centred on the foot, theta-spline values) for every (rIdx, cIdx), displacements from 1e-15 cells to 2.5 turns, both signs, iota in {0, 0.8, -1.3, 2}, grids 6-20 points, general and uniform-cubic splines, process grids up to 3x2; corollaries (constants, linearity, z-shift commutation, exact circular shift); rtol 1e-9')],
         assumptions=['S1 names the value returned by the spline evaluator passed in (see C07)',
                      'range of the floor-based real modulo 0 <= x % m < m for m > 0 is a trusted arithmetic fact'],
     ),
@@ -168,6 +172,8 @@ PROPS = {
             dict(key=ADV + '::general_poloidal_advection_step_impl'),
             dict(key=ADV + '::poloidal_advection_step_impl'),
         ],
+        bounded=[dict(module='vf.rt.bounded_adv', prop='C12',
+                      bound='PoloidalAdvection.step explicit and implicit against own characteristic tracing and boundary values, constant potential, rigid rotation, explicit-vs-implicit order, termination watchdog; gridStep variants on process grids up to 3x2')],
         assumptions=['S2 names the value returned by the 2-D spline evaluator passed in (general or uniform-cubic); that it is the '
                      'tensor B-spline value is C07', 'f_eq is an uninterpreted pure function',
                      'implicit variant: partial correctness only (termination of the fixed-point iteration is not decided)',
@@ -190,6 +196,8 @@ PROPS = {
         level='other',
         contracts=[],
         functions=[],
+        trace_mode=True,
+        case_functions=[dict(module='vf.contracts.driver', key='fullSimulation.py#counters::driver_counters')],
         bounded=[dict(module='vf.rt.bounded_diag', prop='C18',
                       bound='write with P and load with Q ranks, P,Q in {1,2,3,4,6}, all 4-D layouts and 3-D complex grids, bitwise '
                             'comparison incl. -0.0/nan/inf/denormals; latest / timepoint selection for time sets with different digit '
@@ -251,6 +259,8 @@ PROPS = {
         contracts=['vf.contracts.pargrad'],
         functions=[],
         case_functions=[dict(module='vf.contracts.pargrad', key='pygyro/advection/advection.py::ParallelGradient')],
+        bounded=[dict(module='vf.rt.bounded_adv', prop='C13',
+                      bound='ParallelGradient for orders 2-6 against an independent finite-difference / field-line formula, every local radial index on 1-4 processes, iota zero and non-zero, algebraic corollaries, observed convergence order')],
         assumptions=['interp_val(spline, x) names the value of the periodic theta-spline the Spline1D object holds after '
                      'compute_interpolant (assumed contract of the interpolator: it interpolates the row it was given; C08) ',
                      'numpy.linalg.solve returns the solution of A c = b (assumed)',
